@@ -14,6 +14,7 @@ ops (TAB separated, strings hex):
   invoke <prefix> <channel|~> <plugin> <command list> <spec: kind:hexarg,...|-> <allowExtra 0|1> <args list>
          (unmodelled converters behave as the identity)
   ignored <prefix>
+  site <owner|nested|aka|alias|apply|cif|let|netcommand|acmd|scheduled|trigger> <cur prefix> <cur args[0]> <stored prefix> <stored args[0]> <statusmsg chars> <strictRfc 0|1>
   received <prefix> <channel|~> <lobotomized 0|1> <bans: exp:hexpattern,...|-> <ignores: same>   (the record of that channel)
   cfg <prefix> <channel|~> <allowShell 0|1> <parts list> <partsLower list> <non-op-settable prefixes: hex.hex.hex,...|->
   setdefaults <allowDefaultOwner 0|1> <caps>
@@ -139,6 +140,23 @@ def step (s : DState) : List String → DState × String
           | .dispatch => "dispatch"
           | .crashed e => "crash\t" ++ encErr e)
     | _, _, _, _, _ => (s, "bad-op")
+  | ["site", name, cp, ct, sp, st, sm, strict] =>
+    match dec cp, dec ct, dec sp, dec st, dec sm, decBool strict with
+    | some cp, some ct, some sp, some st, some sm, some strict =>
+      let site : Option Site :=
+        if name = "owner" then some .owner else if name = "nested" then some .nested
+        else if name = "aka" then some .aka else if name = "alias" then some .alias
+        else if name = "apply" then some .apply else if name = "cif" then some .cif
+        else if name = "let" then some .let_ else if name = "netcommand" then some .netcommand
+        else if name = "acmd" then some .acmd else if name = "scheduled" then some .scheduled
+        else if name = "trigger" then some .trigger else none
+      match site with
+      | none => (s, "bad-op")
+      | some site =>
+        (s, match siteMsg site { pfx := cp, target := ct } { pfx := sp, target := st } with
+            | none => "none"
+            | some r => let m := r.toMsg sm strict; enc m.pfx ++ "\t" ++ encOpt m.channel)
+    | _, _, _, _, _, _ => (s, "bad-op")
   | ["cfg", p, ch, sh, parts, partsLower, nons] =>
     match dec p, decOpt ch, decBool sh, decList parts, decList partsLower, decPaths nons with
     | some p, some ch, some sh, some parts, some partsLower, some nons =>
